@@ -83,6 +83,9 @@ func CanonRow(r *gripql.QueryResult) string {
 		return model.Canon(map[string]interface{}{"selections": m})
 	case *gripql.QueryResult_Aggregations:
 		a := x.Aggregations
+		if a == nil {
+			return model.Canon(map[string]interface{}{"aggregations": nil})
+		}
 		var val interface{} = a.Value
 		if math.IsNaN(a.Value) || math.IsInf(a.Value, 0) {
 			val = fmt.Sprint(a.Value) // JSON has no NaN
